@@ -214,6 +214,10 @@ func (x *Exec) constVal(c *ssa.Const) *Val {
 			return &Val{K: VPtr, Typ: t, T: Num(0), Ptr: &PtrInfo{Base: PObj, Root: types.Unalias(t).Underlying().(*types.Pointer).Elem()}}
 		case VOpaque, VFunc:
 			return opaqueVal(t)
+		case VStr:
+			if _, isSlice := types.Unalias(t).Underlying().(*types.Slice); isSlice {
+				return strVal(bytesNil, t) // nil []byte is distinct from an empty one
+			}
 		}
 		return zeroVal(t)
 	}
@@ -255,7 +259,15 @@ func (x *Exec) load(fr *Frame, st *State, in ssa.Instruction, p *Val) *Val {
 		return freshVal(ptrElem(p.Typ), "unk", true)
 	}
 	x.nilCheck(fr, st, in, p)
-	return x.loadNoCheck(st, p)
+	v := x.loadNoCheck(st, p)
+	if p.Ptr.Base != PCell {
+		// values read from memory are well-formed for their type and hold allocated references
+		for _, wf := range wellFormed(v) {
+			st.Assume(wf)
+		}
+		x.assumeAllocated(st, v)
+	}
+	return v
 }
 
 func (x *Exec) loadNoCheck(st *State, p *Val) *Val {
@@ -1018,7 +1030,7 @@ func (x *Exec) indexAddr(fr *Frame, st *State, v *ssa.IndexAddr) {
 		return
 	}
 	x.mustNot(fr, st, v, Or(Lt(i.T, Num(0)), Ge(i.T, s.Len)), "index-out-of-range")
-	fr.regs[v] = &Val{K: VPtr, Typ: v.Type(), Ptr: &PtrInfo{Base: PElem, Arr: s.T, Idx: Add(s.Off, i.T), Root: sliceElem(v.X.Type())}}
+	fr.regs[v] = &Val{K: VPtr, Typ: v.Type(), Ptr: &PtrInfo{Base: PElem, Arr: s.T, Idx: ElemIdx(s.Off, i.T), Root: sliceElem(v.X.Type())}}
 }
 
 func (x *Exec) sliceOp(fr *Frame, st *State, v *ssa.Slice) {
@@ -1072,7 +1084,7 @@ func (x *Exec) appendOne(st *State, s *Val, e *Val) *Val {
 			// shifted copy: elements [off, off+len) move to [0, len)
 			c := Const(freshName("shift"), old.Sort)
 			j := Bound("j", SInt)
-			st.Assume(Forall([]*Term{j}, Implies(And(Ge(j, Num(0)), Lt(j, s.Len)), Eq(Select(c, j), Select(old, Add(s.Off, j)))), []*Term{Select(c, j)}))
+			st.Assume(Forall([]*Term{j}, Implies(And(Ge(j, Num(0)), Lt(j, s.Len)), Eq(Select(c, j), Select(old, ElemIdx(s.Off, j)))), []*Term{Select(c, j)}))
 			content = c
 		}
 		if ls[i] == nil {
